@@ -37,7 +37,7 @@ PROPS = {
     ),
     'C07': dict(
         title='Split, join, cast and rounding',
-        verus=['val_mut'], kani=['c07_'],
+        verus=['val_mut', 'exec_glue'], kani=['c07_'],
         technique=V + ' (cut/cast/turn kind and error tables, std preconditions such as from_str_radix radix range as '
                       'proof obligations; string contents uninterpreted) + ' + K + ' (rounding and integrality on all f64)',
     ),
